@@ -16,6 +16,11 @@ Local Notation length := List.length.
    as many bytes as the producer prepends *)
 Example C19_tables_wf : wf_convertor conv1 = true /\ wf_convertor conv2 = true.
 Proof. split; vm_compute; reflexivity. Qed.
+(* the element -> proto field mapping is the intended one (pinned by name, Model/Kafka.v) *)
+Example C19_mapping_pinned :
+  mapping_pinned proto_fields_FlowType1 hdr_fields_FlowType1 conv_rows_FlowType1 = true /\
+  mapping_pinned proto_fields_FlowType2 hdr_fields_FlowType2 conv_rows_FlowType2 = true.
+Proof. split; vm_compute; reflexivity. Qed.
 Example C19_delimiter_matches_source : N.of_nat delimit_len = c_kafka_consumer_msgDelimitLen /\ delimit_len = 4%nat.
 Proof. split; reflexivity. Qed.
 
